@@ -96,7 +96,7 @@ impl PlainYearMonth {
         )?;
 
         // 6. If CompareISODate(yearMonth.[[ISODate]], other.[[ISODate]]) = 0, then
-        if self.iso == other.iso {
+        if self.iso.year == other.iso.year && self.iso.month == other.iso.month {
             // a. Return ! CreateTemporalDuration(0, 0, 0, 0, 0, 0, 0, 0, 0, 0).
             return Ok(Duration::default());
         }
@@ -109,9 +109,11 @@ impl PlainYearMonth {
         // 12. Let otherDate be ? CalendarDateFromFields(calendar, otherFields, constrain).
         // 13. Let dateDifference be CalendarDateUntil(calendar, thisDate, otherDate, settings.[[LargestUnit]]).
         // 14. Let yearsMonthsDifference be ! AdjustDateDurationRecord(dateDifference, 0, 0).
+        let this_iso = IsoDate::new_unchecked(self.iso.year, self.iso.month, 1);
+        let other_iso = IsoDate::new_unchecked(other.iso.year, other.iso.month, 1);
         let result = self
             .calendar()
-            .date_until(&self.iso, &other.iso, resolved.largest_unit)?;
+            .date_until(&this_iso, &other_iso, resolved.largest_unit)?;
 
         // 15. Let duration be CombineDateAndTimeDuration(yearsMonthsDifference, 0).
         let mut duration = NormalizedDurationRecord::from_date_duration(*result.date())?;
@@ -119,9 +121,9 @@ impl PlainYearMonth {
         // 16. If settings.[[SmallestUnit]] is not month or settings.[[RoundingIncrement]] ≠ 1, then
         if resolved.smallest_unit != Unit::Month || resolved.increment != RoundingIncrement::ONE {
             // a. Let isoDateTime be CombineISODateAndTimeRecord(thisDate, MidnightTimeRecord()).
-            let iso_date_time = IsoDateTime::new_unchecked(self.iso, IsoTime::default());
+            let iso_date_time = IsoDateTime::new_unchecked(this_iso, IsoTime::default());
             // b. Let isoDateTimeOther be CombineISODateAndTimeRecord(otherDate, MidnightTimeRecord()).
-            let target_iso_date_time = IsoDateTime::new_unchecked(other.iso, IsoTime::default());
+            let target_iso_date_time = IsoDateTime::new_unchecked(other_iso, IsoTime::default());
             // c. Let destEpochNs be GetUTCEpochNanoseconds(isoDateTimeOther).
             let dest_epoch_ns = target_iso_date_time.as_unchecked_nanoseconds();
             // d. Set duration to ? RoundRelativeDuration(duration, destEpochNs, isoDateTime, unset, calendar, resolved.[[LargestUnit]], resolved.[[RoundingIncrement]], resolved.[[SmallestUnit]], resolved.[[RoundingMode]]).
